@@ -68,8 +68,11 @@ class MockFS:
         return self._objects.get(oid_or_path, None)
 
     def fs_objects(self):
+        # an object is filed under its normalized path and under its oid: yield it once even when both start with '/'
+        seen = set()
         for key, value in self._objects.items():
-            if key.startswith('/'):
+            if key.startswith('/') and id(value) not in seen:
+                seen.add(id(value))
                 yield value
 
     def register_event(self, action, target_object, prior_oid=None):
